@@ -12,6 +12,7 @@ import IocProofs.Lemmas.Order
 import Ioc.Generated.Facts
 import IocProofs.Lemmas.SemOrder
 import IocProofs.Lemmas.SemConfigure
+import IocProofs.Lemmas.SemInit
 namespace Ioc.C12
 open Ioc Ioc.Order
 
@@ -412,5 +413,20 @@ theorem C12_code_Initialize (res : Nat → Step) (sorted : List Nat) (w : Sem.Cf
       else some (if (twoStepLoop res sorted w.log).2 then Sem.errG else .nil,
                  { loaders := sorted, log := (twoStepLoop res sorted w.log).1 }) :=
   Sem.initialize_sem res sorted w
+
+/-- the two callback chains of the delegate, regenerated: the processors are called in the order of
+    `componentPostProcessors` (the sorted registration order, C12_processors_registered_in_order), each fed the previous
+    result — `Order.applyBefore` / `Order.applyAfter` (`Sem.applyBefore_eq`, `Sem.applyAfter_eq`) -/
+theorem C12_code_applyBefore (procs : List Nat) (before after : Nat → Nat → Res Nat) (im : Sem.InitM) (c : Nat) (w : List Sem.IEv) :
+    Go.run (Sem.initBase procs before after im) Progs.del_applyBefore [Sem.encC c, .str "n"] w =
+      some (Sem.encRes (Sem.beforeLoop before procs c).2, w ++ Sem.bevs (Sem.beforeLoop before procs c).1) ∧
+    applyBefore before procs c [] = ((Sem.beforeLoop before procs c).1, (Sem.beforeLoop before procs c).2) :=
+  ⟨Sem.applyBefore_sem procs before after im c w, by rw [Sem.applyBefore_eq]; simp⟩
+
+theorem C12_code_applyAfter (procs : List Nat) (before after : Nat → Nat → Res Nat) (im : Sem.InitM) (c : Nat) (w : List Sem.IEv) :
+    Go.run (Sem.initBase procs before after im) Progs.del_applyAfter [Sem.encC c, .str "n"] w =
+      some (Sem.encAfter (Sem.afterLoop after procs c).2, w ++ Sem.aevs (Sem.afterLoop after procs c).1) ∧
+    applyAfter after procs c [] = ((Sem.afterLoop after procs c).1, (Sem.afterLoop after procs c).2) :=
+  ⟨Sem.applyAfter_sem procs before after im c w, by rw [Sem.applyAfter_eq]; simp⟩
 
 end Ioc.C12
